@@ -365,7 +365,6 @@ func trailingBackslashes(s string) int {
 	return n
 }
 
-var gooseWords = []string{"-- +goose Up", "Down", "StatementBegin", "StatementEnd"}
 
 // gooseLineHazard: the input classes GooseFile.StmtDecls mishandles (line filter in front of the
 // scanner); "" = none.  pragma-word: a line containing Down/StatementBegin/StatementEnd/"-- +goose Up"
@@ -373,13 +372,6 @@ var gooseWords = []string{"-- +goose Up", "Down", "StatementBegin", "StatementEn
 // trimmed, an inner line ending in ';' splits the command.
 func gooseLineHazard(cmd string) string {
 	lines := strings.Split(cmd, "\n")
-	for _, l := range lines {
-		for _, wd := range gooseWords {
-			if strings.Contains(l, wd) {
-				return "goose-pragma-word"
-			}
-		}
-	}
 	for i, l := range lines {
 		t := strings.TrimRightFunc(l, unicode.IsSpace)
 		if t != l {
@@ -396,9 +388,6 @@ func gooseLineHazard(cmd string) string {
 }
 
 func dbmateLineHazard(cmd string) string {
-	if strings.Contains(cmd, "down") || strings.Contains(cmd, "-- migrate:up") {
-		return "dbmate-pragma-word"
-	}
 	if strings.Contains(cmd, "\r") {
 		return "dbmate-carriage-return"
 	}
@@ -423,8 +412,11 @@ func triggerClass(c *planCase) string {
 	if s := c.spec; s != nil {
 		for _, f := range s.feats {
 			v := s.hot[f.role]
-			if identRoles[f.role] && strings.IndexByte(v, s.d.qo) >= 0 {
-				return "ident-closing-quote"
+			// Builder.Ident is repaired (C16-ident-double-quote-char); PostgreSQL type names still go
+			// through typeIdent's %q (C16-ident-goquote-escaped, open): a double quote or backslash
+			// in an enum type name is Go-escaped, which no SQL scanner reads
+			if f.role == "enum-type" && s.d.name == "postgres" && strings.ContainsAny(v, "\"\\") {
+				return "pg-type-ident-goquote"
 			}
 		}
 	}
@@ -443,13 +435,6 @@ func triggerClass(c *planCase) string {
 				return "mysql-enum-value-quote"
 			case (f.role == "tcomment" || f.role == "ccomment" || f.role == "icomment") && !c.fm.dialSc && strings.Contains(v, `"`):
 				return "mysql-dquote-literal-generic-scanner"
-			}
-		}
-	}
-	if c.fm.name == "goose" || c.fm.name == "dbmate" {
-		for _, ch := range p.Changes {
-			if !shortLines(toolComment(ch.Comment) + ch.Cmd + ";\n") {
-				return "sqltool-long-line"
 			}
 		}
 	}
